@@ -139,8 +139,10 @@ func (e *Encoder) writeBuf(payload *bytes.Buffer, pk reflect.Type) (n int, err e
 
 func (e *Encoder) writeCompressed(payload *bytes.Buffer, pk any) (n int, err error) {
 	uncompressedSize := payload.Len()
-	if uncompressedSize < e.compression.threshold {
-		// Under the threshold, there is nothing to do.
+	if uncompressedSize < e.compression.threshold || uncompressedSize == 0 {
+		// Under the threshold, there is nothing to do. An empty payload is never
+		// compressed either: its data length would be 0, which readers take for
+		// "not compressed" and then reject the zlib bytes that follow.
 		n, err = util.WriteVarIntN(e.wr, uncompressedSize+1) // packet length
 		if err != nil {
 			return n, err
